@@ -50,7 +50,7 @@ pub struct Case {
     #[serde(default)]
     pub anchored: u8,
     /// bit0: the class list is given through a variable (class="$cls"); bit1: (content carrier) the content is character
-    /// data, a CDATA section and character data again
+    /// data, a CDATA section and character data again; bit2: (text shape) positioned by x / y given as expressions
     #[serde(default)]
     pub mix: u8,
 }
@@ -95,7 +95,7 @@ fn fam_cases(_t: Tier) -> BoxedStrategy<Case> {
             let anchored = if shape % 9 == 8 && loc.is_some() && anchored <= 9 { anchored } else { 0 };
             // the svgdx-only pseudo elements <point> and <box> take text through the attribute only (content form is not documented for them)
             let carrier = if matches!(shape % 9, 6 | 7) { 0 } else { carrier };
-            Case { shape, g, carrier, pieces, loc, side, vertical, pre, offset, delta, d, lsp, text_style, extras, anchored, mix: if mix < 4 { mix } else { 0 } }
+            Case { shape, g, carrier, pieces, loc, side, vertical, pre, offset, delta, d, lsp, text_style, extras, anchored, mix }
         })
         .boxed()
 }
@@ -190,6 +190,11 @@ pub fn case_xml(c: &Case) -> String {
         }
         4 | 5 => e.set("points", format!("{} {} {} {} {} {}", num(x), num(y), num(x + w), num(y + h / 2.0), num(x + w / 2.0), num(y + h))),
         8 if c.anchored >= 1 => e.set("xy", format!("#z@{}", gen::LOCS[(c.anchored as usize - 1) % 9])),
+        // a text element placed by x / y, each an expression (its content is svgdx text like any other)
+        8 if c.mix & 4 != 0 => {
+            e.set("x", format!("{{{{{} * 2}}}}", num(x / 2.0)));
+            e.set("y", format!("{{{{{} + 1}}}}", num(y - 1.0)));
+        }
         _ => e.set("xy", format!("{} {}", num(x), num(y))),
     }
     // unrelated presentation attributes and classes that must stay on the shape
